@@ -88,6 +88,7 @@ func (ft *ftrans) varSpec(sp *ast.ValueSpec, e *env) {
 		default:
 			ft.declare(e, sp, v)
 			ft.line(e, "let "+v.name+" := "+zeroOf(v.typ)+" in")
+			e.st[v].carry = v.typ == "uint64" // the zero value is a carry
 		}
 	}
 }
@@ -177,6 +178,10 @@ func (ft *ftrans) assign(s *ast.AssignStmt, e *env) {
 		ft.line(e, "let "+v.name+" := "+term+" in")
 		ft.afterWriteWhole(e, s, v)
 		return
+	}
+	if _, isConst, _ := constVal(rhs); isConst && def {
+		// x := 5 declares an int in Go, not a uint64: comparisons, >> and conversions differ
+		p.failAt(s, "%s: `:=` from an untyped constant declares an int (unsupported; write `var x uint64` / uint64(..))", ft.sum.key)
 	}
 	if ft.isBoolExpr(e, rhs) {
 		ft.assignScalar(s, lhs, ft.exprB(e, rhs), "bool", def, e)
